@@ -17,9 +17,15 @@ def Cache.apply (c : Cache) : Op → Cache
 
 def Cache.run (c : Cache) (ops : List Op) : Cache := ops.foldl Cache.apply c
 
+/-- The last conjunct (`minExp = 0` only when no entry carries an expiry) was added to make the invariant
+    inductive: without it `put` of an entry with `expires = x ≠ 0` into a bucket with `minExp = 0` that already
+    holds an entry expiring before `x` sets `minExp := x`, above that entry's expiry. Such a bucket is not
+    reachable (`delete` recomputes the minimum, `expire`/`evict` keep a lower bound), but it satisfies the
+    first three conjuncts. -/
 def Bucket.WF (locus : Bytes) (i : Nat) (b : Bucket) : Prop :=
   (b.entries.map (·.key)).Nodup ∧ (∀ e ∈ b.entries, bucketIndex locus e.key = i) ∧
-  (b.minExp = 0 ∨ ∀ e ∈ b.entries, e.expires ≠ 0 → b.minExp ≤ e.expires)
+  (b.minExp = 0 ∨ ∀ e ∈ b.entries, e.expires ≠ 0 → b.minExp ≤ e.expires) ∧
+  (b.minExp = 0 → ∀ e ∈ b.entries, e.expires = 0)
 
 structure Cache.WF (c : Cache) : Prop where
   count_eq : c.count = c.entries.length
